@@ -72,6 +72,11 @@ def run(ck: Checker, prog: Program, tier: str):
         ck.guard(_group_axis, ck, prog, q)
     # "sampled at exactly the requested centre frequencies", whatever their order: every smoothing column is computed from the
     # whole spectrum and from its own centre frequency alone (loop rules of C02)
+    # "for a fixed FFT length ... the same whether it is processed alone, together ... or in any order": the FFT length process()
+    # derives is written into a private copy of the settings, never into the caller's object (rule of C09)
+    from . import c09
+    with ck.borrow(c09, P + "R5+"):
+        ck.guard(c09._r2c, ck, prog)
     from . import c02
     with ck.borrow(c02, P + "R6+"):
         for k in c02.LOOP_KERNELS:
